@@ -127,9 +127,7 @@ class Check:
         return "{}:{}".format(fi.module.relpath, line)
 
     def _known_keys(self) -> set:
-        return {k["key"] for k in load_known()
-                if k.get("property") == self.prop and
-                k.get("status") == "known"}
+        return {k["key"] for k in known_for(self.prop)}
 
     def check_floors(self) -> None:
         if any(info["violations"] > 0 for info in self.rules.values()):
@@ -157,6 +155,19 @@ def load_known() -> List[Dict[str, Any]]:
         return json.load(fh).get("findings", [])
 
 
+def known_for(prop: str) -> List[Dict[str, Any]]:
+    """Known findings that apply to a run of ``prop``: its own, and those of
+    the properties it borrows rules from (a borrowed rule keeps its owner's
+    rule id, so the key is the same)."""
+    from .borrow import load_table
+    owners = set(load_table().get(prop, {}))
+    return [k for k in load_known()
+            if k.get("status") == "known" and
+            (k.get("property") == prop or
+             (k.get("property") in owners and
+              k.get("key", "").split("-")[0] == k.get("property")))]
+
+
 RuleFn = Callable[[Check], None]
 
 
@@ -170,9 +181,11 @@ def run_check(prop: str, tier: str, rule_fn: RuleFn, meta: Dict[str, Any],
         prog = Program()
     chk = Check(prop, prog, tier)
     rule_fn(chk)
+    if not os.environ.get("VERIF_NO_BORROW"):
+        from .borrow import run_borrowed
+        run_borrowed(chk)
     chk.check_floors()
-    known = [k for k in load_known()
-             if k.get("property") == prop and k.get("status") == "known"]
+    known = known_for(prop)
     known_keys = {k["key"]: k for k in known}
     new: List[Finding] = []
     hit: List[Tuple[Finding, Dict[str, Any]]] = []
